@@ -101,6 +101,9 @@ CORPUS = [
      "\t\t\tn = copy(b, s.bufptr)\n\t\t\ts.bufptr = s.bufptr[n:]", "\t\t\trest := s.bufptr\n\t\t\tn = copy(b, rest)\n\t\t\ts.bufptr = rest[n:]"),
     ("C01", "pass", "Send: size computed with an if instead of min", "kcp.go",
      "\t\tsize = min(len(buffer), int(kcp.mss))", "\t\tsize = len(buffer)\n\t\tif size > int(kcp.mss) {\n\t\t\tsize = int(kcp.mss)\n\t\t}"),
+    ("C01", "pass", "Read: a harmless new loop the contract does not know (cut with automatic invariants)", "sess.go",
+     "func (s *UDPSession) Read(b []byte) (n int, err error) {\n\tvar timeout *time.Timer\n",
+     "func (s *UDPSession) Read(b []byte) (n int, err error) {\n\tspins := 0\n\tfor k := 0; k < len(b) && k < 4; k++ {\n\t\tspins++\n\t}\n\t_ = spins\n\tvar timeout *time.Timer\n"),
     # --- C09
     ("C09", "violation", "flush: retransmitted segments keep their old una", "kcp.go",
      "\t\t\t\tsegment.una = seg.una\n", ""),
